@@ -319,10 +319,20 @@ func VerifC01Relay() {
 	jf := vrt.Pick(vrt.Range("joinFlv", 0, n))
 	var rsub *rtmp.ServerSession
 	var rconn, fconn *vkit.Conn
+	jr2 := -1
+	var rconn2 *vkit.Conn
+	if vrt.Param("subs2") == 1 {
+		jr2 = vrt.Pick(vrt.Range("joinRtmp2", 0, n))
+	}
 	for i := 0; i <= n; i++ {
 		if i == jr {
 			rsub, rconn = kitRtmpSession()
 			g.AddRtmpSubSession(rsub)
+		}
+		if i == jr2 {
+			s2, c2 := kitRtmpSession()
+			rconn2 = c2
+			g.AddRtmpSubSession(s2)
 		}
 		if i == jf {
 			fs, c := kitFlvSub(false)
@@ -348,6 +358,20 @@ func VerifC01Relay() {
 		c02Check("rtmp", got, pub, kinds)
 	} else {
 		c01Check("rtmp", got, pub, kinds, jr, cfg.RtmpConfig.GopNum)
+	}
+
+	if rconn2 != nil {
+		rd2 := &refChunkReader{chunkSize: rtmp.LocalChunkSize}
+		vrt.Assert(rd2.readAll(rconn2.All()), "rtmp2: log is a well-formed chunk stream")
+		var got2 []c01Recv
+		for _, m := range rd2.out {
+			got2 = append(got2, c01Recv{typ: m.typ, ts: m.ts, payload: m.payload})
+		}
+		if vrt.Param("prop") == 2 {
+			c02Check("rtmp2", got2, pub, kinds)
+		} else {
+			c01Check("rtmp2", got2, pub, kinds, jr2, cfg.RtmpConfig.GopNum)
+		}
 	}
 
 	// HTTP-FLV subscriber: writes[0] = HTTP response header, writes[1] = FLV header, then tags
